@@ -67,7 +67,7 @@ class Driver(object):
             return json.load(open(os.path.join(core.VERIF, 'translator',
                                                'fallback', 'guards.json')))
 
-    def run_one(self, op, pi, value):
+    def run_one(self, op, pi, value, via_message=False):
         from amqpstorm.exception import AMQPInvalidArgument
         import amqpstorm
         params = op['params']
@@ -129,7 +129,13 @@ class Driver(object):
         s0 = snap()
         s1 = None
         try:
-            getattr(target, meth)(**kwargs)
+            if via_message:
+                # the same operation reached through an incoming Message object
+                from amqpstorm.message import Message
+                msg = Message(ch, body=b'', method={'delivery_tag': 1}, properties={})
+                getattr(msg, meth)(requeue=kwargs['requeue'])
+            else:
+                getattr(target, meth)(**kwargs)
         except AMQPInvalidArgument:
             rejected = True
             s1 = snap()
@@ -179,6 +185,16 @@ class Driver(object):
                             op=op['name'], param=p['name'], tag=tag,
                             value=repr(v), doc=p['doc_text'], tx=p['tx'],
                             rejected=rejected, other=other)))
+                        if op['name'] in ('basic.nack', 'basic.reject') and p['name'] == 'requeue':
+                            rejected, effect, other = self.run_one(op, pi, v, via_message=True)
+                            cobs = ('{| go_rejected := %s; go_effect := %s; '
+                                    'go_other := %s |}' % (
+                                        core.coq_bool(rejected), core.coq_bool(effect),
+                                        core.coq_bool(bool(other))))
+                            out.append(dict(cin=cin, cobs=cobs, meta=dict(
+                                op=op['name'], param=p['name'], tag=tag, via='message',
+                                value=repr(v), doc=p['doc_text'], tx=p['tx'],
+                                rejected=rejected, other=other)))
         return out
 
     def corpus_cases(self):
